@@ -362,7 +362,24 @@ def relabelled(s3, rel):
 
     # a piece must not contain two source chains with clashing numbers: keep only structures
     # whose (new chain, new number, icode) stay unique - checked by the caller
-    return gen3d.rebuild(s3, keep=set(range(n)) - drops, ident_fn=ident_fn)
+    # residues reduced to their 5' end (P, OP1, OP2, O5', C5' only: partly modelled residues as deposited files have
+    # them): present in the structure, but no nucleotide as far as the sequence is concerned - they get no BPSEQ line
+    trunc = {t % n for t in rel.get("truncate", [])}
+    keep_names = {"P", "OP1", "OP2", "O5'", "C5'"}
+    # ... or to base + C1' (bases placed without their backbone): the library's own annotation still pairs them, the
+    # sequence does not list them - its own pair list then names a residue without a BPSEQ line
+    bare = {t % n for t in rel.get("base_only", [])}
+    backbone = {"P", "OP1", "OP2", "OP3", "O1P", "O2P", "O3P", "C2'", "C3'", "C4'", "C5'", "O2'", "O3'", "O4'", "O5'"}
+
+    def ak(ri, k):
+        name = s3.residues[ri].atoms[k].name
+        if ri in trunc:
+            return name in keep_names
+        if ri in bare:
+            return name not in backbone
+        return True
+
+    return gen3d.rebuild(s3, keep=set(range(n)) - drops, ident_fn=ident_fn, atom_keep=ak if (trunc or bare) else None)
 
 
 def oracle(case):
@@ -400,7 +417,13 @@ def pairs_for_case(case, info=None):
             return None, None
         entries = []
         for e in case["entries"]:
+            others = [k for k, r in enumerate(s3.residues) if not r.is_nucleotide]
+
             def pick(x):
+                if isinstance(x, list) and x[0] == "non-nucleotide":
+                    # a residue that IS in the structure but is no nucleotide (truncated residue, ligand): the entry
+                    # names an existing residue that has no line in the BPSEQ
+                    return others[x[1] % len(others)] if others else nts[x[1] % len(nts)]
                 if isinstance(x, list):
                     return x
                 return nts[x % len(nts)]
@@ -482,6 +505,7 @@ def st_cases(files):
                 "drop": draw(st.lists(st.integers(0, 400), max_size=4)),
                 "offsets": draw(st.lists(st.sampled_from([0, 0, 1, 50, 100, -30, 1000]), min_size=1, max_size=4)),
                 "icode_runs": draw(st.sampled_from([0, 0, 0, 2, 3])),
+                "truncate": draw(st.lists(st.integers(0, 400), max_size=3)),
                 "names": draw(st.sampled_from([["A", "B", "C", "D"], ["B", "A", "D", "C"], ["X", "X2", "Y", "Z"], ["A", "A", "B", "B"],
                                                 # a chain id that comes back after another chain (ligand-like nucleotides
                                                 # or HETATM residues listed after the other chains): two strands, one name
@@ -516,6 +540,14 @@ def run_shard(spec) -> ShardResult:
         for f in files:
             for fg in (False, True):
                 for via in (False, True):
+                    # the same with every seventh / every fifth residue reduced to base + C1' (own annotation over a
+                    # structure some of whose paired bases are no nucleotides)
+                    for stride in (7, 5):
+                        case = {"file": f, "own_annotation": True, "find_gaps": fg, "via_adapter": via,
+                                "relabel": {"base_only": list(range(stride - 2, 400, stride))}}
+                        check_case(PROP_ID, oracle, case, res, to_json=to_json)
+                        nt, labs = classify(case)
+                        res.note_case(to_json(case), nt, labs + ["own-annotation-with-bare-bases"], sample_cap=1)
                     case = {"file": f, "own_annotation": True, "find_gaps": fg, "via_adapter": via}
                     check_case(PROP_ID, oracle, case, res, to_json=to_json)
                     nt, labs = classify(case)
